@@ -188,7 +188,7 @@ pub fn c06_enum_spec(seed: u64, unit: u64) -> RunSpec {
     let plan: Vec<VisitAct> = (0..=brk.min(11))
         .map(|k| VisitAct { step: if k == brk { Step::Break } else { Step::Continue }, w: None, inner: Inner::Nothing, panic: false })
         .collect();
-    s.ops.push(Op::Query { site, mac, key: None, plan });
+    s.ops.push(Op::Query { site, mac, key: None, plan, dp: None });
     s
 }
 
@@ -215,7 +215,7 @@ pub fn c07_enum_spec(rs: u64, unit: u64) -> RunSpec {
     }
     let steps = [Step::Continue, Step::Break, Step::ContinueDestroy, Step::BreakDestroy];
     let plan: Vec<VisitAct> = (0..n).map(|i| VisitAct { step: steps[((c >> (2 * i)) & 3) as usize], w: None, inner: Inner::Nothing, panic: false }).collect();
-    ops.push(Op::Query { site: 3, mac: QMacro::IterDestroy, key: None, plan });
+    ops.push(Op::Query { site: 3, mac: QMacro::IterDestroy, key: None, plan, dp: None });
     ops.push(Op::Create { a: 3, lvl: Lvl::World, p: rng.next() });
     RunSpec { world: "WA".into(), caps: vec![0, 0, 0, rng.below(4) as u32, 0, 0], ops, crash_after: None }
 }
@@ -299,6 +299,13 @@ pub fn fault_variants(base: &RunSpec, yields: &[(u32, u8, u32)], cap_per_op: u32
                         p.panic = false;
                     }
                     plan[k as usize].panic = true;
+                    true
+                }
+                (Op::Query { dp, plan, .. }, 5) => {
+                    for p in plan.iter_mut() {
+                        p.panic = false;
+                    }
+                    *dp = Some(k);
                     true
                 }
                 (Op::CloneWorld { panic_at, .. }, 1) => {
